@@ -660,19 +660,43 @@ func (r *reporter) flush(mets []m3thrift.Metric) []m3thrift.Metric {
 func (r *reporter) convertTags(tags map[string]string) []m3thrift.MetricTag {
 	key := cache.TagMapKey(tags)
 
-	mtags, ok := r.tagCache.Get(key)
-	if !ok {
-		mtags = r.resourcePool.getMetricTagSlice()
-		for k, v := range tags {
-			mtags = append(mtags, m3thrift.MetricTag{
-				Name:  r.stringInterner.Intern(k),
-				Value: r.stringInterner.Intern(v),
-			})
-		}
-		mtags = r.tagCache.Set(key, mtags)
+	// n.b. The cache is keyed by a hash of the tags: an entry is only used
+	//      when it holds exactly these tags.
+	cached, ok := r.tagCache.Get(key)
+	if ok && sameTags(cached, tags) {
+		return cached
 	}
 
+	mtags := r.resourcePool.getMetricTagSlice()
+	for k, v := range tags {
+		mtags = append(mtags, m3thrift.MetricTag{
+			Name:  r.stringInterner.Intern(k),
+			Value: r.stringInterner.Intern(v),
+		})
+	}
+
+	if ok {
+		// Another tag set with the same hash owns the entry.
+		return mtags
+	}
+
+	if cached = r.tagCache.Set(key, mtags); sameTags(cached, tags) {
+		return cached
+	}
 	return mtags
+}
+
+// sameTags reports whether mtags holds exactly the pairs of tags.
+func sameTags(mtags []m3thrift.MetricTag, tags map[string]string) bool {
+	if len(mtags) != len(tags) {
+		return false
+	}
+	for _, t := range mtags {
+		if v, ok := tags[t.Name]; !ok || v != t.Value {
+			return false
+		}
+	}
+	return true
 }
 
 func (r *reporter) reportInternalMetrics() {
